@@ -484,6 +484,321 @@ def run(ctx):
         if mo != g:
             ctx.disagree('server hash passed to join', line[:120], mo, g)
     ctx.extra['join_hashes_checked'] = len(hash_lines)
+    inbound_tie(ctx)
+    vprofile_login_tie(ctx)
+
+
+def vprofile_login_tie(ctx):
+    """Tie of Model/VersionProfiles.lean (driver `vprofile.login`), exhaustive: every supported protocol version vs the
+    live get_id / get_packets / get_definition of the login-state classes (serverbound login start, encryption and
+    plugin response; clientbound disconnect, encryption request, login success, set compression, plugin request; the
+    plugin channel from 385, the binary uuid of login success from 707); unsupported numbers vs Connection's refusal."""
+    import minecraft
+    import minecraft.networking.connection as C
+    from minecraft.networking.packets import clientbound as cb, serverbound as sb
+    from minecraft.networking.types import UUID, String
+    sup = list(minecraft.SUPPORTED_PROTOCOL_VERSIONS)
+    L, S = cb.login, sb.login
+    reqs, want = [], []
+    for v in sup:
+        c = C.ConnectionContext(protocol_version=v)
+        plugin = S.PluginResponsePacket in S.get_packets(c)
+        pr = L.PluginRequestPacket in L.get_packets(c)
+        ut = list(L.LoginSuccessPacket.get_definition(c)[0].values())[0]
+        if plugin != pr or plugin != bool(c.protocol_later_eq(385)):
+            ctx.disagree('login plugin request / response registered iff protocol >= 385', v, bool(c.protocol_later_eq(385)), [pr, plugin])
+        if ut not in (UUID, String) or (ut is UUID) != bool(c.protocol_later_eq(707)):
+            ctx.disagree('login success carries a binary uuid iff protocol >= 707', v, bool(c.protocol_later_eq(707)), repr(ut))
+        reqs.append('vprofile.login %d' % v)
+        want.append('ok ls=%d enc=%d plug=%d plugin=%d cb=%d:%d:%d:%d:%s uuid=%s' % (
+            S.LoginStartPacket.get_id(c), S.EncryptionResponsePacket.get_id(c), S.PluginResponsePacket.get_id(c), plugin,
+            L.DisconnectPacket.get_id(c), L.EncryptionRequestPacket.get_id(c), L.LoginSuccessPacket.get_id(c),
+            L.SetCompressionPacket.get_id(c), L.PluginRequestPacket.get_id(c) if pr else '-', 'B' if ut is UUID else 'S'))
+    refused = [v for v in minecraft.KNOWN_PROTOCOL_VERSIONS if v not in set(sup)] + \
+        [ctx.rng.randrange(0, 2000) for _ in range(40)] + [max(minecraft.KNOWN_PROTOCOL_VERSIONS) + 1, 2 ** 31, 2 ** 40]
+    for v in refused:
+        if v in set(sup):
+            continue
+        try:
+            C.Connection('h', 1, username='u', initial_version=v)
+            got = 'accepted'
+        except ValueError:
+            got = 'err:value'
+        except Exception as e:
+            got = 'err:' + type(e).__name__
+        reqs.append('vprofile.login %d' % v)
+        want.append(got)
+    for line, mo, w in zip(reqs, ctx.driver.ask(reqs), want):
+        ctx.case(('vprofile.login', line))
+        ctx.count('vprofile.login.' + w.split()[0])
+        if mo != w:
+            ctx.disagree('vprofile.login vs the live login-state tables', line, mo[:300], w[:300])
+    ctx.extra['vprofile_login_pairs'] = ctx.extra.get('vprofile_login_pairs', 0) + len(reqs)
+
+
+def inbound_tie(ctx):
+    """Tie of Model/C10Inbound.lean (driver `c10in.wire`, `c10in.read`; ported from
+    harness/xcheck/c10inbound_xcheck.py): a login byte stream built here from the wire format (nested CFB8 after
+    every encryption request, data-length-0 frames after set compression: zlib is outside this model) is
+    (a) compared with the model's `srvWire`, (b) consumed by the REAL client's read loop -- `read_packet` on
+    `connection.file_object` then `_react`, the two calls of NetworkingThread._run, `f` ticks = the write phase
+    -- over a socketpair (whole stream, real select) or over a stub file with a random segmentation
+    (connection.select replaced, restored in finally).  Compared with `c10in.read`: packets handed to `_react`,
+    reactor state, threshold, encryption flag, number of EncryptedFileObjectWrappers, the exception of
+    read_packet / of the reaction, the raw bytes left unread."""
+    import collections
+    import socket
+    import struct
+    import types
+    import zlib
+    from cryptography.hazmat.primitives.ciphers import Cipher, algorithms, modes
+    from cryptography.hazmat.backends import default_backend
+    import minecraft
+    import minecraft.networking.connection as C
+    from minecraft.networking import encryption as ENC
+    from minecraft.networking.packets import clientbound as cb
+    from minecraft.exceptions import LoginDisconnect, VersionMismatch
+    import rsakeys
+    from corr.c01 import SegStream
+    rng = ctx.rng
+    PUB = rsakeys.RSA_1024['der']
+    varint = rc.varint
+    s_ = lambda x: varint(len(x.encode('utf-8'))) + x.encode('utf-8')
+    arr = lambda b: varint(len(b)) + b
+    hx_ = lambda b: bytes(b).hex() if b else '-'
+
+    def profile(ver):
+        cx = C.ConnectionContext(protocol_version=ver)
+        L = cb.login
+        have = set(L.get_packets(cx))
+        plug = getattr(L, 'PluginRequestPacket', None)
+        return dict(disc=L.DisconnectPacket.get_id(cx), enc=L.EncryptionRequestPacket.get_id(cx),
+                    succ=L.LoginSuccessPacket.get_id(cx), comp=L.SetCompressionPacket.get_id(cx),
+                    plug=plug.get_id(cx) if plug in have else None, uuid=bool(cx.protocol_later_eq(707)))
+
+    def fields(I, p):
+        k = p[0]
+        if k == 'enc':
+            return I['enc'], s_(p[1]) + arr(p[2]) + arr(p[3])
+        if k == 'comp':
+            return I['comp'], varint(p[1])
+        if k == 'plug':
+            return I['plug'], varint(p[1]) + s_(p[2]) + p[3]
+        if k == 'succ':
+            return I['succ'], (p[1] if isinstance(p[1], bytes) else s_(p[1])) + s_(p[2])
+        if k == 'disc':
+            return I['disc'], s_(p[1])
+        return p[1], p[2]
+
+    def stream(I, secret, thr, script):
+        """-> bytes, or None if some frame would have to be deflated"""
+        if not script:
+            return b''
+        p = script[0]
+        pid, fl = fields(I, p)
+        payload = varint(pid) + fl
+        if thr is not None:
+            if len(payload) > thr:
+                return None
+            payload = varint(0) + payload
+        tail = stream(I, secret, p[1] if p[0] == 'comp' else thr, script[1:])
+        if tail is None:
+            return None
+        if p[0] == 'enc':
+            tail = Cipher(algorithms.AES(secret), modes.CFB8(secret), backend=default_backend()).encryptor().update(tail)
+        return varint(len(payload)) + payload + tail
+
+    def tok(p):
+        k = p[0]
+        if k == 'enc':
+            return 'enc:%s:%s:%s' % (hx_(p[1].encode()), hx_(p[2]), hx_(p[3]))
+        if k == 'comp':
+            return 'comp:%d' % p[1]
+        if k == 'plug':
+            return 'plug:%d:%s:%s' % (p[1], hx_(p[2].encode()), hx_(p[3]))
+        if k == 'succ':
+            return ('succ:b:%s:%s' % (hx_(p[1]), hx_(p[2].encode()))) if isinstance(p[1], bytes) else \
+                ('succ:s:%s:%s' % (hx_(p[1].encode()), hx_(p[2].encode())))
+        if k == 'disc':
+            return 'disc:%s' % hx_(p[1].encode())
+        return 'unk:%d:%s' % (p[1], hx_(p[2]))
+
+    class OutSock(object):
+        def send(self, d):
+            return len(d)
+
+    def real_client(ver, secret, segs, ticks, use_socketpair):
+        c = C.Connection('localhost', 25565, username='u', initial_version=ver)
+        c.context.protocol_version = ver
+        a = b = stub = None
+        if use_socketpair:
+            a, b = socket.socketpair()
+            c.socket, c.file_object = a, a.makefile('rb', 0)
+            b.sendall(b''.join(segs))
+            b.shutdown(socket.SHUT_WR)
+        else:
+            stub = SegStream(segs)
+            c.socket, c.file_object = OutSock(), stub
+        c.options.compression_enabled = False
+        c._outgoing_packet_queue = collections.deque()
+        c.reactor = C.LoginReactor(c)
+        seen, ioerr, err, dead = [], 'none', 'none', False
+        try:
+            for t in ticks:
+                if dead:
+                    break
+                try:
+                    if t == 'f':
+                        with c._write_lock:
+                            while c._pop_packet():
+                                pass
+                        continue
+                    if not isinstance(c.reactor, C.LoginReactor):
+                        continue           # the model stops interpreting in play state
+                    pkt = c.reactor.read_packet(c.file_object, timeout=0.3)
+                    if pkt is None:
+                        ioerr, dead = 'notready', True
+                        continue
+                    name = pkt.packet_name
+                    if name == 'encryption request':
+                        seen.append('enc:%s:%s:%s' % (hx_(pkt.server_id.encode()), hx_(pkt.public_key), hx_(pkt.verify_token)))
+                    elif name == 'set compression':
+                        seen.append('comp:%d' % pkt.threshold)
+                    elif name == 'login plugin request':
+                        seen.append('plug:%d:%s:%s' % (pkt.message_id, hx_(pkt.channel.encode()), hx_(pkt.data)))
+                    elif name == 'login success':
+                        seen.append('succ')
+                    elif name == 'disconnect':
+                        seen.append('disc:%s' % hx_(pkt.json_data.encode()))
+                    try:
+                        c._react(pkt)
+                    except LoginDisconnect:
+                        err, dead = 'login', True
+                    except VersionMismatch as e:
+                        err, dead = 'mismatch:%s' % hx_(str(e.server_version).encode()), True
+                except Exception as e:
+                    m = {EOFError: 'eof', zlib.error: 'zlib', AssertionError: 'assertion', UnicodeDecodeError: 'decode',
+                         struct.error: 'struct'}
+                    ioerr = m.get(type(e)) or ('toolong' if 'too long' in str(e) else 'value' if isinstance(e, ValueError)
+                                               else type(e).__name__)
+                    dead = True
+            fo, layers = c.file_object, 0
+            while isinstance(fo, ENC.EncryptedFileObjectWrapper):
+                layers += 1
+                fo = fo.actual_file_object
+            if use_socketpair:
+                a.setblocking(False)
+                rest = b''
+                try:
+                    while True:
+                        d = a.recv(65536)
+                        if not d:
+                            break
+                        rest += d
+                except BlockingIOError:
+                    pass
+            else:
+                rest = b''.join(stub.segs)
+        finally:
+            for x in (a, b):
+                if x is not None:
+                    x.close()
+        return dict(seen=','.join(seen) or '-', state='play' if isinstance(c.reactor, C.PlayingReactor) else 'login',
+                    thr=str(c.options.compression_threshold) if c.options.compression_enabled else 'none',
+                    enc=str(1 if isinstance(c.socket, ENC.EncryptedSocketWrapper) else 0), layers=str(layers),
+                    ioerr=ioerr, err=err, rest=hx_(rest))
+
+    def text_of(j):
+        try:
+            t = json.loads(j)['text']
+        except (ValueError, TypeError, KeyError):
+            return '~'
+        return hx_(t.encode()) if isinstance(t, str) else '!'
+    sup = sorted(minecraft.SUPPORTED_PROTOCOL_VERSIONS)
+    edge = [v for v in (47, 340, 385, 390, 391, 706, 707, 757) if v in sup]
+    UU = bytes(range(16))
+    cases = []
+    while len(cases) < ctx.scale(150, 2500):
+        ver = rng.choice(edge) if rng.random() < 0.6 else rng.choice(sup)
+        I = profile(ver)
+        secret = bytes(rng.randrange(256) for _ in range(16))
+        script = []
+        for _ in range(rng.randrange(0, 6)):
+            x = rng.random()
+            if x < 0.3:
+                script.append(('enc', rng.choice(['-', '-', 'srv', 'abc123']), PUB, bytes(rng.randrange(256) for _ in range(rng.choice([1, 4, 16])))))
+            elif x < 0.55:
+                script.append(('comp', rng.choice([64, 100, 256, 300, 2 ** 31 - 1, rng.randrange(40, 5000)])))
+            elif x < 0.75 and I['plug'] is not None:
+                script.append(('plug', rng.choice([0, 1, 300, 2 ** 31 - 1]), rng.choice(['ch:a', 'minecraft:brand', '']),
+                               bytes(rng.randrange(256) for _ in range(rng.randrange(0, 6)))))
+            else:
+                script.append(('unk', rng.choice([0x26, 0x55, 0x7e, 300]), bytes(rng.randrange(256) for _ in range(rng.randrange(0, 5)))))
+        end = rng.random()
+        texts = []
+        if end < 0.45:
+            script.append(('succ', UU if I['uuid'] else '0123-uuid', rng.choice(['bob', 'u', u'J\xf6rg'])))
+            if rng.random() < 0.4:
+                script.append(('unk', 0x26, b'\x01\x02'))          # first play-state bytes already behind it
+        elif end < 0.8:
+            j = rng.choice(MSGS)
+            script.append(('disc', j))
+            texts.append((j, text_of(j)))
+        wire = stream(I, secret, None, script)
+        if wire is None:           # a frame above the threshold in force would need zlib: not in this model
+            ctx.count('inbound.regenerated_deflate')
+            continue
+        nr = sum(1 for _ in script)
+        ticks = ''.join(rng.choice('frr') for _ in range(rng.randrange(0, nr + 4)))
+        if rng.random() < 0.6:
+            ticks = 'f' + 'r' * (nr + 1) + 'f'
+        if rng.random() < 0.6:
+            segs, sp = [wire], True
+        else:
+            segs, i, sp = [], 0, False
+            while i < len(wire):
+                n = rng.choice([1, 2, 3, 7, 30, 200])
+                segs.append(wire[i:i + n])
+                i += n
+        cases.append((ver, I, secret, script, texts, wire, ticks, segs, sp))
+    lines = []
+    for ver, I, secret, script, texts, wire, ticks, segs, sp in cases:
+        head = 'cb=%d,%d,%d,%d,%s uuid=%d' % (I['disc'], I['enc'], I['succ'], I['comp'], '-' if I['plug'] is None else I['plug'], I['uuid'])
+        lines.append('c10in.wire %s secret=%s %s' % (head, hx_(secret), ' '.join(tok(p) for p in script)))
+        lines.append('c10in.read %s token=0 secret=%s ticks=%s segs=%s %s' % (
+            head, hx_(secret), ticks, ','.join(hx_(s) for s in segs) or '-',
+            ' '.join('%s=%s' % (hx_(j.encode()), t) for j, t in texts)))
+    saved = (C.select, ENC.generate_shared_secret)
+    reals = []
+    try:
+        for ver, I, secret, script, texts, wire, ticks, segs, sp in cases:
+            ENC.generate_shared_secret = lambda secret=secret: secret
+            C.select = saved[0] if sp else types.SimpleNamespace(select=lambda r, w, x, t=None: (list(r), [], []))
+            reals.append(real_client(ver, secret, segs, ticks, sp))
+    finally:
+        C.select, ENC.generate_shared_secret = saved
+    out = ctx.driver.ask(lines)
+    for i, (ver, I, secret, script, texts, wire, ticks, segs, sp) in enumerate(cases):
+        lw, lr = out[2 * i], out[2 * i + 1]
+        shape = [p[0] for p in script]
+        ctx.case(('c10in', ver, lines[2 * i + 1]), sample={'op': 'c10in.read', 'version': ver, 'script': shape, 'ticks': ticks,
+                                                           'transport': 'socketpair' if sp else '%d segments' % len(segs)})
+        ctx.count('inbound.' + ('socketpair' if sp else 'segmented'))
+        if lw != 'ok wire=%s' % hx_(wire):
+            ctx.disagree('c10in.wire vs the stream built from the wire format (protocol %d)' % ver, lines[2 * i][:600], lw[:300], hx_(wire)[:300])
+        L = dict(t.partition('=')[::2] for t in lr.split(' ')[1:])
+        if not lr.startswith('ok ') or any(k not in L for k in ('seen', 'state', 'thr', 'enc', 'layers', 'ioerr', 'err', 'rest')):
+            ctx.disagree('c10in.read: no usable reply', lines[2 * i + 1][:600], lr[:300], reals[i])
+            continue
+        got = dict(seen=L['seen'], state=L['state'], thr=L['thr'], enc=L['enc'], layers=L['layers'], ioerr=L['ioerr'],
+                   err=L['err'].split(':')[0] if L['err'].startswith('login') else L['err'], rest=L['rest'])
+        ctx.count('inbound.ioerr.' + reals[i]['ioerr'])
+        ctx.count('inbound.err.' + reals[i]['err'].split(':')[0])
+        if got != reals[i]:
+            diff = sorted(k for k in got if got[k] != reals[i][k])
+            ctx.disagree('c10in.read vs the real read loop (protocol %d, %s): %s' % (ver, 'socketpair' if sp else 'segmented', ','.join(diff)),
+                         lines[2 * i + 1][:900], {k: got[k][:200] for k in diff}, {k: reals[i][k][:200] for k in diff})
+    ctx.extra['c10inbound_pairs'] = ctx.extra.get('c10inbound_pairs', 0) + len(lines)
 
 
 def replay(ctx, rp):
